@@ -31,6 +31,11 @@ CLAIMED = {
                 'C04_context_not_overridable for all kinds. The full statement is proved FALSE of the pinned tree (C04Statement_false, D6 witnesses by decide), recorded as known findings. '
                 'Tied by exhaustive enumeration of all signatures of <=3 (quick) / <=4 (thorough) parameters over the five kinds against the real dispatchers; reference oracle = CPython direct call of a recording twin.',
                 note='Kernel + standard axioms; CPython Signature._bind and the call protocol are transcribed (Bind.lean) and checked exhaustively; variadic / positional-only kinds are the recorded defect D6 (decided by the oracle).'),
+    'C15': dict(ref='§4 C15', text='Lean theorem C15_refines: for every registration history (a tree over add / add with name / add_methods / view / merge) pjrpc\'s registry equals the rendering of an abstract registry '
+                'whose names are lists of segments (non-empty prefixes outermost first, then explicit or own name) — same keys, same order, same targets; last registration wins (C15_last_registration_wins); '
+                'unregistered names answer -32601; clean views expose exactly their public callables. Correspondence over exhaustive short histories and random deep merges, probed by dispatching every name, '
+                'names one edit away and private member names on both dispatchers.',
+                note='Kernel + standard axioms; dir() order / callable() / __name__ of members are declared per test class (oracle input); D21 (public alias of a private view member) and D24 (Method object in a prefixed registry) are recorded findings.'),
     'C05': dict(ref='§4 C05', text='Lean theorems over the message model: from_json∘to_json = id up to falsy-params normalisation for requests, '
                 'responses, errors, batches and batch-level errors; to_json fixpoint; exact wire form; class-by-code. Tied to the code by the '
                 'msg correspondence suite (real constructors / to_json / JSON text through both encoders / from_json vs the model) and the constants translator.',
